@@ -1,6 +1,7 @@
 import FractopoModel.Generated.ValidationUtils
 import FractopoModel.Lemmas.Stacking
 import FractopoModel.Lemmas.SharpCorners
+import FractopoModel.Generated.ValidatorMethods
 import FractopoModel.Generated.Windows
 import FractopoModel.Generated.ValidationDefaults
 import FractopoModel.Generated.JunctionShift
@@ -311,6 +312,32 @@ theorem C10_generated_sharp_turns {L' P' V : Type} (coords_of : L' → List P') 
        else if is_nan chord then false
        else (List.range (cs.length - 1)).all (SharpL.okAt dflt unit is_nan aligned cs chord avg prev)) :=
   SharpL.generated_sharp coords_of dflt unit is_nan aligned geom avg prev
+
+theorem stacked_loop_eq {L' : Type} (is_ls : L' → Bool) (nb : L' → Rat → L' → Bool) (al : L' → List L' → Bool) (tri : L' → L' → Bool) (geom : L') (cands : List L')
+    (t m o : Rat) (l : List L') :
+    Gen.stacked_validation_loop1 is_ls nb al tri geom cands t m o l = bif l.any (fun c => tri geom c) then .ret false else .done () := by
+  induction l with
+  | nil => simp [Gen.stacked_validation_loop1]
+  | cons c rest ih =>
+    simp only [Gen.stacked_validation_loop1, List.any_cons, ih]
+    cases tri geom c <;> simp
+
+/-- **When a trace is reported STACKED TRACES** (`StackedTracesValidator.validation_method`, regenerated): never without candidates;
+otherwise iff the alongside test (`C10_generated_stacking_decision`) fires on the LineString candidates whose buffer of radius
+`t·o·m` meets the trace, or the small-triangle test (`C10_generated_triangle`) fires against ANY candidate. -/
+theorem C10_generated_stacked_validator {L' : Type} (is_ls : L' → Bool) (nb : L' → Rat → L' → Bool) (al : L' → List L' → Bool) (tri : L' → L' → Bool) (geom : L')
+    (cands : List L') (t m o : Rat) :
+    Gen.stacked_validation is_ls nb al tri geom cands t m o =
+      (cands.isEmpty || !(al geom (cands.filter fun tc => is_ls tc && nb tc (t * o * m) geom) || cands.any fun c => tri geom c)) := by
+  unfold Gen.stacked_validation
+  simp only [stacked_loop_eq]
+  cases cands with
+  | nil => simp
+  | cons c cs =>
+    simp only [List.length_cons, Nat.succ_ne_zero, decide_false, Bool.false_eq_true, if_false, List.isEmpty_cons, Bool.false_or]
+    generalize al geom (List.filter (fun tc => is_ls tc && nb tc (t * o * m) geom) (c :: cs)) = A
+    generalize (c :: cs).any (fun c => tri geom c) = B
+    cases A <;> cases B <;> rfl
 
 end Utils
 
